@@ -181,3 +181,78 @@ def run(chk, pid: str):
     chk.extra["file_level"] = {"strings_checked_by_tlc": res.distinct, "replayed": len(out), "loadable_per_specification": len(ok),
                                "values_compared": compared, "problems_by_kind": kinds, "conformance_notes": notes}
     chk.sample({"tokens": " ".join(ok[0]["toks"]), "text_one_line": render(ok[0]["toks"], True), "text_token_per_line": render(ok[0]["toks"], False)})
+
+
+def _saveload_one(rec):
+    """C11 on a loadable file-level string: load -> save -> load; component membership (also of an atom that belongs
+    to several components, whether through one header with two names or through identical declarations in the
+    blocks of two components) and the numbers must survive."""
+    import os
+    import shutil
+    import tempfile
+    from . import gx
+    from gotranx.load import load_ode
+    text = render(rec["toks"], True)
+    out = {"toks": rec["toks"], "problems": [], "compared": 0}
+    try:
+        ode = gx.ode_from_string(text, name="m")
+    except Exception as ex:  # noqa: BLE001
+        out["skipped"] = f"does not load: {type(ex).__name__}"
+        return out
+    d = tempfile.mkdtemp(prefix="fsl-")
+    try:
+        ode.save(os.path.join(d, "m.ode"))
+        saved = open(os.path.join(d, "m.ode")).read()
+        try:
+            ode2 = load_ode(os.path.join(d, "m.ode"))
+        except Exception as ex:  # noqa: BLE001
+            out["problems"].append({"kind": "reload-error", "message": f"{type(ex).__name__}: {str(ex)[:160]}", "saved": saved, "text": text})
+            return out
+    finally:
+        shutil.rmtree(d, ignore_errors=True)
+    a, b = _membership(ode), _membership(ode2)
+    if a != b:
+        out["problems"].append({"kind": "membership", "lost": sorted(map(list, a - b))[:6], "gained": sorted(map(list, b - a))[:6], "saved": saved, "text": text})
+        return out
+    want = {(m["name"], m["kind"], m["comp"].lstrip("$")) for m in rec["membership"]}
+    if b != want:
+        out["problems"].append({"kind": "membership-vs-specification", "diff": sorted(map(list, b ^ want))[:8], "text": text})
+    try:
+        c1, c2 = gx.numpy_code(ode, ["explicit_euler"]), gx.numpy_code(ode2, ["explicit_euler"])
+        n1, n2 = gx.exec_module(c1), gx.exec_module(c2)
+        import numpy as np
+        s = np.array([0.75 + 0.5 * i for i in range(len(n1["state"]))])
+        p1 = n1["init_parameter_values"]()
+        p2 = n2["init_parameter_values"]()
+        for nm, i in n1["state"].items():
+            r1 = n1["rhs"](0.5, s, p1)[i]
+            s2 = np.array([s[n1["state"][k]] for k in sorted(n2["state"], key=n2["state"].get)])
+            r2 = n2["rhs"](0.5, s2, p2)[n2["state"][nm]]
+            out["compared"] += 1
+            if not (abs(r1 - r2) <= 1e-12 * max(1.0, abs(r1))):
+                out["problems"].append({"kind": "rhs", "name": nm, "before": float(r1), "after": float(r2), "saved": saved, "text": text})
+    except Exception as ex:  # noqa: BLE001
+        out["problems"].append({"kind": "generate-after-reload", "message": f"{type(ex).__name__}: {str(ex)[:160]}", "text": text})
+    return out
+
+
+def run_saveload(chk):
+    from . import tlc, core
+    consts = dict(CONSTS, MaxItems=2, MutMod=0, EmitMutMod=0, SeedEmitMod=3 if chk.tier == "quick" else 1)
+    cfg = tlc.make_cfg(constants=consts, invariants=["File_CommentsInert", "File_ScopeIsHeader", "File_AcceptedIsWellFormed", "EmitBase", "EmitMut"])
+    res = tlc.run_tlc("MC_File", cfg, workers=chk.nproc, timeout=1800, constants_for_summary=consts)
+    ok = [r for r in res.records if r["outcome"] == "ok"]
+    res.records = []
+    chk.add_tlc(res)
+    if len(ok) < 20:
+        raise core.MachineryFailure(f"MC_File: only {len(ok)} loadable strings")
+    with cf.ProcessPoolExecutor(max_workers=chk.nproc) as ex:
+        out = list(ex.map(_saveload_one, ok, chunksize=4))
+    chk.replayed += len(out)
+    multi = sum(1 for r in ok if len({m["comp"] for m in r["membership"] if m["name"] in ("p", "y")}) > 1)
+    chk.extra["file_level_saveload"] = {"loadable_strings": len(ok), "with_an_atom_in_two_components": multi,
+                                        "values_compared": sum(o["compared"] for o in out), "skipped": sum(1 for o in out if "skipped" in o)}
+    for o in out:
+        for p in o["problems"]:
+            chk.violation(f"C11:file:{p['kind']}", {"tokens": o["toks"], **p},
+                          f"save/load of `{' '.join(o['toks'])}`: {p['kind']} { {k: v for k, v in p.items() if k not in ('kind', 'text', 'saved')} }")
